@@ -91,7 +91,7 @@ func statementsOf(code string) ([]string, bool) {
 }
 
 func runC15(c *Ctx) {
-	c.Rule = "blocks rendered from random abstract syntax over the PRINTABLE domain (strings without quote, backslash or newline; non-negative integers; dates from 1970 with second precision; byte arrays; booleans; sets of non-string elements; expression trees of depth up to 5 with redundant parentheses and method calls) are parsed with the library's parser, added to a token as block 1 or 2, and printed with Biscuit.Code(): the text must equal the Lean printer's text, must be the same before and after Serialize/Unmarshal, and every printed statement re-parsed with parser.FromStringBlock must give back exactly the original facts, rules and checks. Non-trivial = the block has at least one rule or check with an expression; distinct = distinct printed texts."
+	c.Rule = "blocks rendered from random abstract syntax over the PRINTABLE domain (strings without quote, backslash or newline; integers of either sign (the property asks for the non-negative ones); dates from 1970 with second precision; byte arrays; booleans; sets of non-string elements; expression trees of depth up to 5 with redundant parentheses and method calls) are parsed with the library's parser, added to a token as block 1 or 2, and printed with Biscuit.Code(): the text must equal the Lean printer's text, must be the same before and after Serialize/Unmarshal, and every printed statement re-parsed with parser.FromStringBlock must give back exactly the original facts, rules and checks. Non-trivial = the block has at least one rule or check with an expression; distinct = distinct printed texts."
 	r := NewRng(c.Seed)
 	n := 1500
 	if c.Thorough {
